@@ -228,6 +228,7 @@ var mutants = []Mutant{
 	{"C09", "date-lost-to-strip", "internal/responsestorerer.go", [][2]string{{"\tFixDateHeader(resp.Header, respTime)\n", ""}}, "C09.17", "D84"},
 	{"C16", "late-304-merged", "roundtripper.go", [][2]string{{"if resp.StatusCode == http.StatusNotModified && !sentValidatorsOf(req, stored.Data.Header) {", "if false {"}}, "C16.15", "D85"},
 	{"C08", "late-304-compares-nothing", "helpers.go", [][2]string{{"\treturn req.Header.Get(\"If-None-Match\") == storedHdr.Get(\"ETag\") &&\n\t\treq.Header.Get(\"If-Modified-Since\") == storedHdr.Get(\"Last-Modified\")", "\treturn req != nil && storedHdr != nil"}}, "C08.13", "D85: the comparison replaced by a nil test"},
+	{"C11", "age-last-member-wins", "internal/freshness.go", [][2]string{{"\tageField, _, _ := strings.Cut(h.Get(\"Age\"), \",\")\n\tif v, valid := RawDeltaSeconds(textproto.TrimString(ageField)).Value(); valid {", "\tvar ageField string\n\tfor member := range TrimmedCSVSeq(h.Get(\"Age\")) {\n\t\tageField = textproto.TrimString(strings.TrimSpace(member))\n\t}\n\tif v, valid := RawDeltaSeconds(ageField).Value(); valid {"}}, "C11.10", "wave 8: the loop over the Age members never stops"},
 	{"C01", "date-decoder-length-gate", "internal/ccdirectives.go", [][2]string{{"func (r RawTime) Value() (t time.Time, valid bool) {\n\tif r == \"\" {", "func (r RawTime) Value() (t time.Time, valid bool) {\n\tif len(r) < len(http.TimeFormat) {"}}, "C01.25", "wave 8"},
 	{"C01", "empty-argument-dropped", "internal/ccdirectives.go", [][2]string{{"\t\t\t\tvalue = textproto.TrimString(value)\n", "\t\t\t\tvalue = textproto.TrimString(value)\n\t\t\t\tif value == \"\" {\n\t\t\t\t\tcontinue\n\t\t\t\t}\n"}}, "C01.26", "wave 8"},
 	{"C12", "empty-argument-dropped", "internal/ccdirectives.go", [][2]string{{"\t\t\t\tvalue = textproto.TrimString(value)\n", "\t\t\t\tvalue = textproto.TrimString(value)\n\t\t\t\tif value == \"\" {\n\t\t\t\t\tcontinue\n\t\t\t\t}\n"}}, "C12.20", "wave 8"},
